@@ -25,6 +25,7 @@ class Gen:
         self.max_depth = max_depth
         self.retry = retry
         self.multi_retrier = multi_retrier
+        self.long_form = False        # some Task states in the long form arn:aws:states:::rpcmessage:invoke (FunctionName / Payload); not known to Spec/AslSem.v
         self.n = 0
 
     def name(self, prefix="S"):
@@ -93,6 +94,9 @@ class Gen:
                     st["TimeoutSeconds"] = r.choice([2, 30])
                 self.paths(st)
                 self.retry_catch(st, later + [end_fail])
+                if self.long_form and r.random() < 0.35:
+                    st["Parameters"] = {"FunctionName": st["Resource"], "Payload": st.get("Parameters", {"p.$": "$.a"})}
+                    st["Resource"] = "arn:aws:states:::rpcmessage:invoke"
             elif kind == "Choice":
                 st["Choices"] = []
                 for _ in range(r.randrange(1, 3)):
